@@ -40,7 +40,7 @@ is_6531_local (const char *start, const char *end)
     int quote = 0;
     int ch;
 #ifdef RFC6531_FOLLOW_RFC5322
-    int prev = 0; /* previous index of non-ASCII character */
+    size_t prev = 0; /* previous index of non-ASCII character */
 #endif
     int prevch = -1; /* previous character, -1 at the start */
     int closed = 0;  /* previous character was a closing DQUOTE */
@@ -95,7 +95,7 @@ is_6531_local (const char *start, const char *end)
             } break;
             case '.': {
                 /* '.' is allowed after an atom and only once */
-                int pos = utf8_decode_at_byte(&u);
+                size_t pos = utf8_decode_at_byte(&u);
                 if (pos >= 1 && prevch == '.')
                     return inverse(EEAV_LPART_TOO_MANY_DOTS);
                 if (pos == 0 || (start + pos + 1) == end)
